@@ -18,19 +18,22 @@ func (k Keeper) Lock(ctx context.Context, reqs []*goattypes.LockRequest) error {
 		return nil
 	}
 
-	// aggregate
+	// aggregate, keeping the validators in the order of their first appearance:
+	// the map iteration order is random, it must not decide which validator fails first
 	updates := make(map[common.Address]sdktypes.Coins)
+	order := make([]common.Address, 0, len(reqs))
 	for _, req := range reqs {
 		if _, ok := updates[req.Validator]; !ok {
 			updates[req.Validator] = sdktypes.Coins{}
+			order = append(order, req.Validator)
 		}
 		coin := sdktypes.NewCoin(types.TokenDenom(req.Token), math.NewIntFromBigInt(req.Amount))
 		updates[req.Validator] = updates[req.Validator].Add(coin)
 	}
 
 	sdkctx := sdktypes.UnwrapSDKContext(ctx)
-	for validator, coins := range updates {
-		if err := k.lock(sdkctx, validator, coins); err != nil {
+	for _, validator := range order {
+		if err := k.lock(sdkctx, validator, updates[validator]); err != nil {
 			return err
 		}
 	}
